@@ -18,7 +18,8 @@ EXPLANATION = (
     "the same method negated on both sides; reserved key rejected.  R12.4: __getstate__/__setstate__ tag and field "
     "order agree.  R12.5: every data-file name written is read and vice versa; dump/load act on the same path "
     "expression.  R12.6 (=R16.3): a content change rebuilt from data reads the file before writing it.  R12.7: the "
-    "history writer's list order equals the loader's index order.  Value-level round-trip equality is not decided."
+    "history writer's list order equals the loader's index order.  R12.8: a non-inline dict key is stored under the "
+    "index at which it was appended to the reference table (evaluation-order aware).  Value-level round-trip equality is not decided."
 )
 ASSUMPTIONS = ["taint is flow-insensitive with control dependence on if-tests", "json.dumps/loads behave as documented"]
 
@@ -392,12 +393,107 @@ def _serializer(ctx, res) -> None:
             f"inline keys are those with {e_inline[0][0]}() false on both sides" if ok else
             f"encoder stores a key inline under {[(m, p) for m, p, _ in e_inline]} but the decoder treats a key as inline under "
             f"{[(m, p) for m, p, _ in d_inline]}: some string keys are decoded as reference ids (or vice versa)")
+    _refid_rule(ctx, res, enc)
     reserved = any(isinstance(n.ast, ast.Raise) and any(
         isinstance(t, ast.Compare) and const_str(t.comparators[0]) == "$" and pol for t, pol in ecfg.guards(n.id))
         for n in ecfg.nodes if n.kind == "stmt")
     res.add("R12.3", "reserved-key", reserved, enc.where,
             'the encoder rejects the reserved key "$"' if reserved else
             'the encoder accepts a dict containing the reserved key "$": the decoder then misreads the dict as a tagged object')
+
+
+def _eval_order(node: ast.AST) -> List[ast.AST]:
+    """Sub-expressions of a statement in Python's evaluation order (value before targets for assignments,
+    operands before the operation, arguments before the call)."""
+    out: List[ast.AST] = []
+    if isinstance(node, ast.Assign):
+        out += _eval_order(node.value)
+        for t in node.targets:
+            out += _eval_order(t)
+        return out
+    if isinstance(node, ast.AugAssign):
+        return _eval_order(node.target) + _eval_order(node.value)
+    for c in ast.iter_child_nodes(node):
+        out += _eval_order(c)
+    out.append(node)
+    return out
+
+
+def _refid_rule(ctx, res, enc) -> None:
+    """R12.8: a dict entry with a non-inline key is stored under the index at which that key was appended to the
+    reference table (the decoder looks the key up at exactly that index)."""
+    ps = param_names(enc.node)
+    if len(ps) < 2:
+        raise AnalysisError("anchor=_py2js(o, references, version) signature changed")
+    refs = ps[1]
+    loops = [n for n in walk_local(enc.node) if isinstance(n, ast.For) and isinstance(n.iter, ast.Call)
+             and call_name(n.iter) == "items" and isinstance(n.target, ast.Tuple) and len(n.target.elts) == 2]
+    if not loops:
+        raise AnalysisError("anchor=_py2js dict loop 'for key, value in o.items()' not found")
+    keyv, valv = (e.id for e in loops[0].target.elts)
+
+    def is_len(n):
+        return isinstance(n, ast.Call) and call_name(n) == "len" and n.args and isinstance(n.args[0], ast.Name) and n.args[0].id == refs
+
+    def is_app(n):
+        return isinstance(n, ast.Call) and isinstance(n.func, ast.Attribute) and n.func.attr == "append" \
+            and isinstance(n.func.value, ast.Name) and n.func.value.id == refs
+
+    def is_rec_value(n):
+        return isinstance(n, ast.Call) and not is_len(n) and not is_app(n) \
+            and any(isinstance(a, ast.Name) and a.id == refs for a in n.args) \
+            and any(isinstance(x, ast.Name) and x.id == valv for a in n.args for x in ast.walk(a))
+
+    # the block containing the append
+    blocks = []
+    for n in ast.walk(loops[0]):
+        for f in ("body", "orelse"):
+            b = getattr(n, f, None)
+            if isinstance(b, list) and any(is_app(x) for st in b for x in ast.walk(st) if isinstance(st, ast.stmt)) \
+                    and any(isinstance(st, (ast.Expr, ast.Assign)) and any(is_app(x) for x in ast.walk(st)) for st in b):
+                blocks.append(b)
+    if not blocks:
+        raise AnalysisError("anchor=_py2js 'references.append(<encoded key>)' not found")
+    blk = blocks[-1]
+    events: List[ast.AST] = []
+    for st in blk:
+        events += _eval_order(st)
+    app_i = next(i for i, e in enumerate(events) if is_app(e))
+    # the store result[K] = V and the id expression
+    stores = [st for st in blk if isinstance(st, ast.Assign) and isinstance(st.targets[0], ast.Subscript)
+              and isinstance(st.targets[0].value, ast.Name) and st.targets[0].value.id == "result"]
+    if not stores:
+        res.undecided("R12.8", "refid", enc.where, "store into the encoded dict not found next to the reference append")
+        return
+    K = stores[-1].targets[0].slice
+    id_expr = None
+    if any(is_len(x) for x in ast.walk(K)):
+        id_expr = K
+    else:
+        names = {x.id for x in ast.walk(K) if isinstance(x, ast.Name)}
+        for st in blk:
+            if isinstance(st, ast.Assign) and isinstance(st.targets[0], ast.Name) and st.targets[0].id in names \
+                    and any(is_len(x) for x in ast.walk(st.value)):
+                id_expr = st.value
+    if id_expr is None:
+        res.undecided("R12.8", "refid", enc.where, "reference id is not computed from len(references)")
+        return
+    len_node = next(x for x in ast.walk(id_expr) if is_len(x))
+    len_i = next(i for i, e in enumerate(events) if e is len_node)
+    minus_one = any(isinstance(x, ast.BinOp) and isinstance(x.op, ast.Sub) and x.left is len_node
+                    and isinstance(x.right, ast.Constant) and x.right.value == 1 for x in ast.walk(id_expr))
+    lo, hi = sorted((len_i, app_i))
+    between = [e for e in events[lo + 1:hi] if is_rec_value(e)]
+    if len_i < app_i:
+        ok = not minus_one and not between
+    else:
+        ok = minus_one and not between
+    res.add("R12.8", "refid", ok, f"{enc.unit.rel}:{stores[-1].lineno}",
+            "the reference id is the index at which the key is appended (computed with no value-encoding in between)" if ok else
+            "the reference id under which a dict entry is stored is computed " + ("after" if len_i > app_i else "before")
+            + " the key is appended" + (", with the entry's value being encoded in between (Python evaluates the right-hand side before the subscript)"
+                                        if between else "") + (" without the matching -1/+0 adjustment" if not between else "")
+            + ": a nested dict with a non-string key shifts the table and the entry decodes under the wrong key")
 
 
 def _state_pair(ctx, res) -> None:
